@@ -28,9 +28,10 @@ NoUnion(S)  == UnionsIn(S) = {}
 AnonEnumsIn(S) == {o.name : o \in {x \in AllObjects(S) : \E t \in Nested(x.type) : t.k = "enum"}}
 EnumsNamed(S)  == AnonEnumsIn(S) = {}
 
-\* "every struct outside an allOf composition is a named object"
+\* "every struct outside an allOf composition is a named object": everything below an
+\* intersection counts as inside the composition (the reading under which more code passes)
 RECURSIVE HasAnonStruct(_, _)
-HasAnonStruct(t, ok) == (t.k = "struct" /\ ~ok) \/ (\E c \in ChildrenNH(t) : HasAnonStruct(c, t.k = "inter"))
+HasAnonStruct(t, ok) == (t.k = "struct" /\ ~ok) \/ (t.k # "inter" /\ \E c \in ChildrenNH(t) : HasAnonStruct(c, FALSE))
 AnonStructsIn(S) == {o.name : o \in {x \in AllObjects(S) : HasAnonStruct(x.type, TRUE)}}
 StructsNamedOutsideAllOf(S) == AnonStructsIn(S) = {}
 
